@@ -8,7 +8,7 @@ from vlib.workers import ALL, WorkerDied, WorkerSet
 PROPERTY = "C11"
 LEVEL = "exploration"
 RULE = ("Wrapper chains of length 1..7 over synthetic manager objects (unwrap_context hook returning None / the next manager / "
-        "PRUNE / itself / the head of the chain; falsy (empty-container-like) managers included; elaborate_context hook setting any subset of description, children, "
+        "PRUNE / itself / the head of the chain; falsy (empty-container-like) managers and managers with an __eq__ of their own (equal to everything / refusing comparison) included; elaborate_context hook setting any subset of description, children, "
         "inner_stack, or replacing context.obj by another manager of the chain) and generator-based managers made by three "
         "@contextmanager functions (with an unwrap_context_generator hook returning None / next / PRUNE, without a hook, one "
         "delegating with `yield from`, and one holding a manager of its own whose context the hook must see on its Frame); is_exiting on or off; each case run three ways - fill_context(Context(...)) outside any "
